@@ -387,11 +387,26 @@ class Scan:
                 let = re.search(r"\blet\s+(?:mut\s+)?(\w+)\s*(?::[^=]+)?=\s*$", head)
                 let_ref = re.search(r"\blet\s+(?:mut\s+)?(\w+)\s*(?::[^=]+)?=\s*&\s*(?:mut\s+)?$", head)
                 after = body[end2:]
+                def check_escape(nm):
+                    depth_, scope_end = 0, n
+                    for q in range(end2, n):
+                        if body[q] == "{":
+                            depth_ += 1
+                        elif body[q] == "}":
+                            depth_ -= 1
+                            if depth_ < 0:
+                                scope_end = q
+                                break
+                    esc = re.search(r"\b(push|push_back|insert|extend|Some|Ok|Box::new|Arc::new)\s*\(\s*(?:[\w\.&]+\s*,\s*)?%s\s*\)|\breturn\s+%s\b" % (nm, nm), body[end2:scope_end])
+                    if esc:
+                        raise ExtractError("guard `%s` escapes its block (%s) in %s: lifetime not understood" % (nm, esc.group(0), f))
                 if let and re.match(r"\s*;", after):
+                    check_escape(let.group(1))
                     gid = g + ":" + let.group(1)
                     items.append(("acq", cls, gid))
                     blocks[-1]["guards"].append(gid)
                 elif let_ref and re.match(r"(\s*\.\s*\w+)*\s*;", after) and not re.match(r"(\s*\.\s*\w+)*\s*\(", after):
+                    check_escape(let_ref.group(1))
                     gid = g + ":" + let_ref.group(1)
                     items.append(("acq", cls, gid))
                     blocks[-1]["guards"].append(gid)
